@@ -503,6 +503,7 @@ type c13Run struct {
 	DirSeed  uint64   `json:"dir_seed"`
 	NBytes   int      `json:"file_bytes,omitempty"`
 	Dup      bool     `json:"duplicate_names_and_suffix_dirs,omitempty"`
+	NoFile   int      `json:"rlimit_nofile,omitempty"`
 	Problems []string `json:"problems,omitempty"`
 }
 
@@ -650,6 +651,7 @@ func runC13(c *ev.Ctx) {
 		race   bool
 		strace bool
 		dup    bool
+		nofile int // > 0: open-file limit of the process (prlimit)
 	}
 	var cases []binCase
 	ns := []int{1, 2, 3, 8, 16, 64}
@@ -665,6 +667,10 @@ func runC13(c *ev.Ctx) {
 		}
 	}
 	cases = append(cases, binCase{scale: "1E6", s: 4, nbytes: 125000, n: 4, procs: 16})
+	if _, err := exec.LookPath("prlimit"); err == nil {
+		// far more sample files than the process may hold open at once
+		cases = append(cases, binCase{scale: "2E4", s: 150, nbytes: 2500, n: 16, procs: 16, nofile: 48})
+	}
 	if c.Thorough() {
 		cases = append(cases, binCase{scale: "1E6", s: 40, nbytes: 125000, n: 16, procs: 16}, binCase{scale: "1E6", s: 5, nbytes: 125000, n: 2, procs: 2, race: true})
 		cases = append(cases, binCase{scale: "1E8", s: 2, nbytes: 12500000, n: 2, procs: 16})
@@ -702,6 +708,9 @@ func runC13(c *ev.Ctx) {
 		if bc.strace {
 			argv = append([]string{"strace", "-f", "-o", "/dev/null", "-e", "trace=write", "-P", report, "-e", "inject=write:delay_exit=3000:when=2+"}, argv...)
 		}
+		if bc.nofile > 0 {
+			argv = append([]string{"prlimit", fmt.Sprintf("--nofile=%d:%d", bc.nofile, bc.nofile)}, argv...)
+		}
 		env := envVariant(i/2, fmt.Sprintf("GOMAXPROCS=%d", bc.procs), "GOTRACEBACK=all")
 		if bc.race {
 			env = append(env, "GORACE=halt_on_error=0 log_path="+filepath.Join(work, fmt.Sprintf("race-bin-%d", i)))
@@ -711,7 +720,7 @@ func runC13(c *ev.Ctx) {
 			limit = 45 * time.Minute
 		}
 		pr := runProc(root, env, limit, argv...)
-		run := c13Run{Scale: bc.scale, S: bc.s, N: bc.n, Procs: bc.procs, Race: bc.race, Strace: bc.strace, Driver: "binary", DirSeed: gen.Mix(seed, 131, uint64(i)), NBytes: bc.nbytes, Dup: bc.dup}
+		run := c13Run{Scale: bc.scale, S: bc.s, N: bc.n, Procs: bc.procs, Race: bc.race, Strace: bc.strace, Driver: "binary", DirSeed: gen.Mix(seed, 131, uint64(i)), NBytes: bc.nbytes, Dup: bc.dup, NoFile: bc.nofile}
 		key := fmt.Sprintf("binary:%s:s=%d:n=%d:procs=%d:race=%v:strace=%v", bc.scale, bc.s, bc.n, bc.procs, bc.race, bc.strace)
 		mu.Lock()
 		defer mu.Unlock()
@@ -783,6 +792,7 @@ type c20Case struct {
 	Accept bool   `json:"run_rddetector"`
 	PrevN  int    `json:"previous_run_n_bits,omitempty"` // > 0: rdgen was run before in the same directory with this sample length
 	PrevS  int    `json:"previous_run_s,omitempty"`
+	NoFile int    `json:"rlimit_nofile,omitempty"` // > 0: run under this open-file limit (prlimit)
 }
 
 // evalC20 runs one rdgen configuration in a fresh scratch directory and checks the post-state.
@@ -837,6 +847,9 @@ func evalC20(cs c20Case, i int, work, bin, binRace, det string) (probs []string,
 	if cs.CPUs > 0 {
 		argv = append([]string{"taskset", "-c", fmt.Sprintf("0-%d", cs.CPUs-1)}, argv...)
 	}
+	if cs.NoFile > 0 {
+		argv = append([]string{"prlimit", fmt.Sprintf("--nofile=%d:%d", cs.NoFile, cs.NoFile)}, argv...)
+	}
 	env := envVariant(i, "GOTRACEBACK=all")
 	if cs.Procs > 0 {
 		env = append(env, fmt.Sprintf("GOMAXPROCS=%d", cs.Procs))
@@ -859,6 +872,9 @@ func evalC20(cs c20Case, i int, work, bin, binRace, det string) (probs []string,
 	}
 	pr = runProc(cwd, env, 10*time.Minute, argv...)
 	key = fmt.Sprintf("rdgen:s=%d:n=%d:o=%q:cpus=%d:procs=%d:race=%v:strace=%v:prev_n=%d", cs.S, cs.N, cs.Out, cs.CPUs, cs.Procs, cs.Race, cs.Strace, cs.PrevN)
+	if cs.NoFile > 0 {
+		key += fmt.Sprintf(":nofile=%d", cs.NoFile)
+	}
 	if pr.Status == "timeout" {
 		undecided = true
 	} else if pr.Status != "exited" || pr.Exit != 0 {
@@ -1002,6 +1018,10 @@ func runC20(c *ev.Ctx) {
 		cases = append(cases, c20Case{S: 5, N: 20000, Out: o, Pre: o == "pre", CPUs: []int{0, 1, 2}[r.Intn(3)], Accept: true})
 	}
 	cases = append(cases, c20Case{S: 2, N: 100000000, Out: "big", Accept: true})
+	// more samples than the process may hold open files (macOS's default limit is 256, many services run with 1024)
+	if _, err := exec.LookPath("prlimit"); err == nil {
+		cases = append(cases, c20Case{S: 200, N: 20000, Out: "lim", NoFile: 64, Accept: false}, c20Case{S: 1000, N: 64, Out: "", NoFile: 256}, c20Case{S: 300, N: 1000000, Out: "lim2", NoFile: 128, CPUs: 2})
+	}
 	// re-generation into a directory used by an earlier run (longer / shorter / equal samples)
 	for i, pv := range [][3]int{{1000000, 20000, 6}, {20008, 20000, 5}, {8, 20000, 5}, {20000, 20000, 7}, {64, 8, 9}, {1000008, 1000000, 2}} {
 		cases = append(cases, c20Case{S: pv[2], N: pv[1], PrevN: pv[0], PrevS: pv[2], Out: outs[i%len(outs)], Pre: outs[i%len(outs)] == "pre", Accept: pv[1] == 20000 || pv[1] == 1000000, CPUs: []int{0, 1, 2}[i%3]})
@@ -1096,6 +1116,9 @@ func init() {
 		argv := []string{exe, "-i", d.Root, "-o", report, "-n", fmt.Sprint(run.N)}
 		if run.Strace {
 			argv = append([]string{"strace", "-f", "-o", "/dev/null", "-e", "trace=write", "-P", report, "-e", "inject=write:delay_exit=3000:when=2+"}, argv...)
+		}
+		if run.NoFile > 0 {
+			argv = append([]string{"prlimit", fmt.Sprintf("--nofile=%d:%d", run.NoFile, run.NoFile)}, argv...)
 		}
 		pr := runProc(root, append(os.Environ(), fmt.Sprintf("GOMAXPROCS=%d", run.Procs), "GOTRACEBACK=all"), 45*time.Minute, argv...)
 		if pr.Status == "timeout" {
